@@ -446,6 +446,21 @@ func (c *FnCtx) model(fr *Frame, st *State, x *ssa.Call, name string, args []*Te
 		return nil
 	case "time.Sleep":
 		return nil
+	case "sort.Sort":
+		use("sort.Sort(x): permutes the underlying slice in place (same length, every element is one of the old elements); ordering facts are stated separately where needed")
+		o, ok := fr.origin[cc.Args[0]]
+		if !ok {
+			unsupported("sort.Sort of a slice that is not held in a known variable")
+		}
+		old := c.load(st, o)
+		np := ts.Fresh("sorted", old.sort)
+		c.addFact(st, ts.Eq(ts.Len(np), ts.Len(old)))
+		bv := ts.Bound("p", SInt)
+		pi := ts.UF("perm!"+np.op, SInt, bv)
+		c.addFact(st, ts.Quant("forall", bv, ts.Implies(ts.And(ts.Le(ts.Int(0), bv), ts.Lt(bv, ts.Len(np))),
+			ts.And(ts.Le(ts.Int(0), pi), ts.Lt(pi, ts.Len(old)), ts.Eq(ts.Nth(np, bv), ts.Nth(old, pi))))))
+		c.store(st, o, np)
+		return nil
 	case "encoding/xml.NewDecoder":
 		use("xml.NewDecoder(r): a decoder object at token position 0, element depth 0, reading from r")
 		o := c.allocObj(st, "xmldec")
